@@ -802,6 +802,7 @@ func c12Configs(ctx *core.Ctx, exec func(csvCase, string, bool)) {
 		"x,y\n1,a\n2,b\n", "x,y\n1,\n,b\n", "x,y\n\n1,a\n\n", "x\n\na\n\n", "x\n1\n\n2\n", "x,x\n1,2\n", "x,,x\n1,2,3\n", ",\n1,2\n", "x,y\n", "x,y", "x\n\"\"\n",
 		"a,a,a0\n1,2,3\n", "x0,x,x,x1\n1,2,3,4\n", "x,x,x,x0,x1\n1,2,3,4,5\n",
 		"n\n9223372036854775807\n-9223372036854775808\n", "n\n9223372036854775808\n1\n", "n\n9999999999999999999\n", "n\n-9223372036854775809\n", "n\n+5\n-0\n007\n", "n\n1e3\n0x10\n1_0\n",
+		"v\n-0\n1.5\n", "v\n1.5\n-0\n", "v\n-00\n0.5\n-0\n", "v\n0.9222122589217269\n9.836716240198795\n", "v\n0\n-0\n",
 		"b\nT\nf\n0\n", "b\nTrue\nFALSE\n", "b\nyes\nno\n", "v\n inf\n", "v\nInf\n-inf\nNaN\n", "v\n1.5 \n",
 		"x,y\n1.5,true\n,false\n", "x,y\ntrue,1\n1,0\n", "x,y\n1,\"a\nb\"\n2,\"c\"\"d\"\n", "x,y\r\n1,a\r\n", "x,y\n1,2,3\n", "x,y\n1\n", "e,f\na,1\nb,2\na,\n",
 	}
@@ -842,7 +843,7 @@ func init() {
 		Level: "model_checking",
 		Rule: "case = (document, configuration, read schedule). Documents are generated from the RFC 4180 grammar (1-2 columns, 0-2 data rows below the header, every cell from a 9-14 element alphabet of unquoted/quoted/escaped cells, LF or CRLF, final line break or not, 1-4 delimiters); " +
 			"read schedules are enumerated by deviations from the default single read: all schedules with <= 2 (quick) / 3 (thorough) cut points, uniform k-byte readers, EOF with or after the last data; for documents of <= 11 (13) bytes ALL 2^(L-1) fragmentations, through ReadCSV and through the real scanner with initial buffer capacity 1,2,3,4,8 (overlay seam); " +
-			"configuration product (EmptyNull, IgnoreEmptyLines, Headers, Types, EnumValues, RenameDuplicateColumns, MissingColumnNameAlias) on 33 documents (incl. duplicate headers next to genuine x0/x1 headers and numeric edge cells: 19-digit integers around MaxInt64, signs, exponents, spellings of booleans, Inf/NaN); long fields 1015..4100 bytes with escaped quotes around the buffer boundaries; one row of 5000..140000 bytes followed by 0..400 short rows; enum columns with 254..257 distinct values; RowCountHint across the 1000-row resize. " +
+			"configuration product (EmptyNull, IgnoreEmptyLines, Headers, Types, EnumValues, RenameDuplicateColumns, MissingColumnNameAlias) on 38 documents (incl. duplicate headers next to genuine x0/x1 headers and numeric edge cells: 19-digit integers around MaxInt64, signs, exponents, spellings of booleans, Inf/NaN); long fields 1015..4100 bytes with escaped quotes around the buffer boundaries; one row of 5000..140000 bytes followed by 0..400 short rows; enum columns with 254..257 distinct values; RowCountHint across the 1000-row resize. " +
 			"Oracles: result(schedule) = result(single read); result = reference parser + type inference. Non-trivial = quoted cells or >= 2 data rows, and every tiny/long/config case; distinct by case content.",
 		Assumptions: []string{
 			"reference parser model/csv.go (state machine over the whole document) and type inference by strconv.Atoi/ParseFloat/ParseBool in that order; a CRLF inside a quoted field may be returned verbatim (RFC 4180) or as LF (encoding/csv); bare CR is not generated",
